@@ -610,6 +610,17 @@ _temporal_fields = ("t", "tau", "E", "e", "energy", "M", "m", "mass")
 # the vector class ############################################################
 
 
+def _behavior_of(first: typing.Any, handler: typing.Any) -> typing.Any:
+    """
+    Behavior for a wrapped result: the first computed array's, or the handling
+    vector's if that array has none (e.g. a record combined with an array of
+    plain numbers).
+    """
+    if first.behavior is not None:
+        return first.behavior
+    return getattr(handler, "behavior", None)
+
+
 def _yes_record(
     x: ak.Array,
 ) -> float | ak.Record | None:
@@ -741,7 +752,9 @@ class VectorAwkward:
                     dict(zip(names, arrays)),
                     depth_limit=first.layout.purelist_depth,
                     with_name=_class_to_name(cls),
-                    behavior=None if vector._awkward_registered else first.behavior,
+                    behavior=None
+                    if vector._awkward_registered
+                    else _behavior_of(first, self),
                 )
             )
 
@@ -797,7 +810,9 @@ class VectorAwkward:
                     dict(zip(names, arrays)),
                     depth_limit=first.layout.purelist_depth,
                     with_name=_class_to_name(cls.ProjectionClass2D),
-                    behavior=None if vector._awkward_registered else first.behavior,
+                    behavior=None
+                    if vector._awkward_registered
+                    else _behavior_of(first, self),
                 )
             )
 
@@ -862,7 +877,9 @@ class VectorAwkward:
                     dict(zip(names, arrays)),
                     depth_limit=first.layout.purelist_depth,
                     with_name=_class_to_name(cls),
-                    behavior=None if vector._awkward_registered else first.behavior,
+                    behavior=None
+                    if vector._awkward_registered
+                    else _behavior_of(first, self),
                 )
             )
 
@@ -930,7 +947,9 @@ class VectorAwkward:
                     dict(zip(names, arrays)),
                     depth_limit=first.layout.purelist_depth,
                     with_name=_class_to_name(cls.ProjectionClass3D),
-                    behavior=None if vector._awkward_registered else first.behavior,
+                    behavior=None
+                    if vector._awkward_registered
+                    else _behavior_of(first, self),
                 )
             )
 
@@ -1006,7 +1025,9 @@ class VectorAwkward:
                     dict(zip(names, arrays)),
                     depth_limit=first.layout.purelist_depth,
                     with_name=_class_to_name(cls.ProjectionClass4D),
-                    behavior=None if vector._awkward_registered else first.behavior,
+                    behavior=None
+                    if vector._awkward_registered
+                    else _behavior_of(first, self),
                 )
             )
 
